@@ -542,7 +542,63 @@ def c12(ctx):
                                "edits are not in the operation alphabet yet)", "a seeded sample of the emitted histories is replayed"])
 
 
+# ---------------------------------------------------------------------------
+# C08  verdicts depend only on the log: never on cache, repetition or checkpoint
+
+CACHE_DEVS = {"StaleCachePolicyLookup", "LatestOnlySetsCheckpoint"}
+
+
+def c08(ctx):
+    q = ctx.quick()
+    known, asbuilt = devsets("C08")
+    asbuilt = (asbuilt & (CACHE_DEVS | VERIFY_DEVS)) | known
+    mod = 29 if q else 101
+    consts = {"MaxLen": 6 if q else 7, "Dev": set(), "AsBuilt": asbuilt, "EmitMod": mod, "EmitRes": ctx.seed % mod}
+    mc = _model_check_with_override(ctx, "MC_VerifyCache", dict(constants=consts, invariants=["CacheInvisible"], view="View", constraints=["Emit"]),
+                                    {"Pol": "MCPol"})
+    pol = [r for r in mc.records if r.get("t") == "POL"][:1]
+    scns, seen = [], set()
+    for x in mc.records:
+        k = json.dumps(x, sort_keys=True)
+        if x.get("t") == "SCN" and k not in seen:
+            seen.add(k)
+            scns.append(x)
+    # the checkpoint witness is always replayed
+    def ref(s, par):
+        return {"a": "grow", "e": {"k": "ref", "ref": "main", "s": s, "tree": 1, "par": par, "v": "", "tg": [], "apps": [], "crs": []}}
+    scns.append({"t": "SCN", "acts": [ref("p3", 0), ref("p1", 2), {"a": "populate"}, {"a": "verify", "mode": "full", "ref": "main"},
+                                      {"a": "verify", "mode": "latest", "ref": "main"}, {"a": "verify", "mode": "full", "ref": "main"}]})
+    if not pol or not scns:
+        raise Infra("TLC emitted no scenarios")
+    d = ctx.sub("c08")
+    write_ndjson(os.path.join(d, "pol.ndjson"), pol)
+    write_ndjson(os.path.join(d, "scn.ndjson"), scns)
+    trace = os.path.join(d, "trace.ndjson")
+    run_vh(ctx, ["verifycache", "-scn", os.path.join(d, "scn.ndjson"), "-aux", os.path.join(d, "pol.ndjson"), "-out", trace, "-seed", ctx.seed,
+                 "-n", 0 if q else 50000])
+    cls = validate_trace(ctx, "Trace_VerifyCache", trace, {"Known": known, "AsBuilt": asbuilt}, extra_cfg={"overrides": {"Pol": "TracePol"}},
+                         files=[("pol.ndjson", os.path.join(d, "pol.ndjson"))])
+    lines = None
+    tally = Tally(ctx)
+    for rec in cls:
+        if rec["err"]:
+            raise Infra("harness could not run scenario %d: %s" % (rec["id"], rec["err"]))
+        x = rec["r"]
+        item = None
+        if x["cls"] != "conform":
+            if lines is None:
+                lines = {y["id"]: y for y in read_ndjson(trace)}
+            ln = lines[rec["id"]]
+            item = {"why": x.get("why"), "acts": ln["scn"]["acts"], "steps": ln["steps"]}
+        tally.add(x["cls"], item, dev=x.get("dev"), nontrivial_key=rec["id"])
+    return finish(ctx, tally, samples=[{"acts": scns[len(scns) // 2]["acts"]}], traces=len(cls),
+                  assumptions=["the persistent cache lives in refs/local/gittuf/persistent-cache of the harness' in-memory store; every Verify is "
+                               "also run on a copy of the repository without that ref", "principals share no keys; policy entries are chain-valid; "
+                               "one reference; from-entry checkpoints are exercised through the cache's last-verified entry"])
+
+
 CHECKS = {
+    "C08": c08,
     "C12": c12,
     "C20": c20,
     "C13": c13,
